@@ -35,7 +35,7 @@ def cmat(C):
     return [[[int(round(v.real)), int(round(v.imag))] for v in row] for row in C]
 
 
-_LAYOUT = [0]
+_LAYOUT = __import__("harness.qlib", fromlist=["register_counter"]).register_counter([0])
 
 
 def embed(fn, F):
